@@ -85,7 +85,7 @@ def random_cut_case(rng, max_heavy, kinds=('$', '><'), max_parts=6, mol_kw=None,
         nparts = rng.randint(1, min(len(g), max_parts))
     part = M.partition(rng, g, k=nparts, keep_rings=keep)
     nparts = max(part.values()) + 1
-    case = M.build_case(rng, g, part, kinds=kinds, render_opts=render_opts or {'explicit_single': rng.choice([0.0, 0.1])})
+    case = M.build_case(rng, g, part, kinds=kinds, render_opts=render_opts or {'explicit_single': rng.choice([0.0, 0.1]), 'desc_after_branch': rng.choice([0.0, 0.0, 0.5])})
     if case is None:
         return None
     ast, pre = M.base_to_ast(rng, case['base'])
@@ -269,8 +269,10 @@ def add_virtual(rng, case, n_virtual=None, n_zero_edges=None, order=0):
         v = nxt
         nxt += 1
         base.add_node(v, fragname='V%d' % i)
-        for t in rng.sample(real + virt, rng.randint(1, min(3, len(real) + len(virt)))):
-            base.add_edge(v, t, order=order)
+        targets = rng.sample(real + virt, rng.randint(1, min(3, len(real) + len(virt))))
+        for j, t in enumerate(targets):
+            # fault variant (order >= 1): one real edge is enough, the others may be virtual edges
+            base.add_edge(v, t, order=order if (j == 0 or rng.random() < 0.5) else 0)
         virt.append(v)
     for _ in range(nz):
         if len(real) >= 2:
